@@ -138,6 +138,42 @@ static mjModel* make_model(unsigned long long seed, unsigned feat, int nb, int i
     }
     m = mj_compile(s, NULL);
     mj_deleteSpec(s);
+  } else if ((enable >> 22) & 1) {
+    // bit 22: history buffers (part of mjSTATE_INTEGRATION through mjSTATE_HISTORY): every sensor gets a buffer and one of
+    // {interval + zero-order hold, interval with phase + linear interpolation, delay with interp 0/1/2, history only};
+    // the first actuators get delayed controls.  Periods are not multiples of the timestep, so the captured state
+    // usually lies strictly between two sampling ticks and the held sample must come out of the buffer.
+    mjSpec* s = mjg_spec(seed, feat, nb);
+    double dt = s->option.timestep;
+    if (!mjs_firstElement(s, mjOBJ_SENSOR)) {
+      mjsSensor* c = mjs_addSensor(s); mjs_setName(c->element, "c01clock"); c->type = mjSENS_CLOCK; c->objtype = mjOBJ_UNKNOWN;
+      mjsElement* be = mjs_firstElement(s, mjOBJ_BODY);
+      for (int k = 0; be && k < 2; be = mjs_nextElement(s, be)) {
+        const char* nm = mjs_getString(mjs_getName(be));
+        if (!nm || !nm[0] || !strcmp(nm, "world")) continue;
+        mjsSensor* p = mjs_addSensor(s); char sn[32]; snprintf(sn, sizeof sn, "c01pos%d", k); mjs_setName(p->element, sn);
+        p->type = k ? mjSENS_FRAMELINVEL : mjSENS_FRAMEPOS; p->objtype = mjOBJ_BODY; mjs_setString(p->objname, nm); k++;
+      }
+    }
+    int k = 0;
+    for (mjsElement* e = mjs_firstElement(s, mjOBJ_SENSOR); e; e = mjs_nextElement(s, e), k++) {
+      mjsSensor* sn = mjs_asSensor(e); if (!sn) continue;
+      sn->nsample = 2 + (k + (int)(seed % 3)) % 4;
+      switch ((k + (int)(seed % 5)) % 5) {
+        case 0: sn->interval[0] = 4.5 * dt; sn->interp = 0; break;
+        case 1: sn->interval[0] = 3 * dt; sn->interval[1] = -0.5 * dt; sn->interp = 1; break;
+        case 2: sn->delay = 1.5 * dt; sn->interp = k % 3; break;
+        case 3: break;
+        default: sn->interval[0] = 6 * dt; sn->interval[1] = -2 * dt; sn->interp = (seed >> 3) % 2 ? 2 : 0; break;
+      }
+    }
+    k = 0;
+    for (mjsElement* e = mjs_firstElement(s, mjOBJ_ACTUATOR); e && k < 2; e = mjs_nextElement(s, e), k++) {
+      mjsActuator* a = mjs_asActuator(e); if (!a) continue;
+      a->nsample = 3 + k; a->delay = (1.5 + k) * dt; a->interp = (k + (int)(seed % 3)) % 3;
+    }
+    m = mj_compile(s, NULL);
+    mj_deleteSpec(s);
   } else {
     m = mjg_model(seed, feat, nb, NULL);
   }
